@@ -48,7 +48,15 @@ AddNew(order, ms) == IF ms = << >> THEN order
 RECURSIVE MentionsOf(_)
 MentionsOf(rxs) == IF rxs = << >> THEN << >>
                    ELSE Head(rxs).re \o Head(rxs).pr \o Head(rxs).dre \o Head(rxs).dpr \o MentionsOf(Tail(rxs))
-ModelOrder(prog) == AddNew(AddNew(prog.decl, MentionsOf(prog.rx)), [i \in 1..NS |-> i])
+\* bioscrape requires a species that occurs only inside a rate law (Hill regulator, proportional species)
+\* to be declared before the reaction is created; the builder declares them after the listed ones
+RECURSIVE LawSpecies(_)
+LawSpecies(rxs) == IF rxs = << >> THEN << >>
+                   ELSE LET l == Head(rxs).law IN
+                        (IF l.type = "massaction" THEN << >>
+                         ELSE IF l.type \in {"proportionalhillpositive", "proportionalhillnegative"} THEN <<l.s1, l.d>> ELSE <<l.s1>>)
+                        \o LawSpecies(Tail(rxs))
+ModelOrder(prog) == AddNew(AddNew(AddNew(prog.decl, LawSpecies(prog.rx)), MentionsOf(prog.rx)), [i \in 1..NS |-> i])
 IndexOf(order, s) == CHOOSE i \in 1..Len(order) : order[i] = s
 
 \* the update dictionary of one side pair, accumulated mention by mention: d[r] -= 1, d[p] += 1
